@@ -116,6 +116,8 @@ def gen_plan(rng, tier, i, seed):
         return {"w": gen_world(seed, i % cfg["worlds"]), "route": "vcf", "settings": [["vcf_sample_idx", given, exp, "int"]],
                 "options": [], "extra": None, "dashes": rng.random() < 0.5, "prior": False, "vcf_cli": rng.random() < 0.5,
                 "write_hashseed": 0, "read_hashseed": rng.choice([0, 1, 2, 3])}
+    if i % 48 == 29:
+        route = "vcf_options"  # VCF input together with a profile file that has an options section
     strings_only = route in ("cli", "dump", "profile_cli", "exome")
     names = rng.sample(sorted(PARAMS), rng.randint(1, 5))
     if route == "exome" and rng.random() < 0.6 and "min_coverage" not in names:
@@ -126,7 +128,7 @@ def gen_plan(rng, tier, i, seed):
         given, exp = spell(rng, typ, rng.choice(vals), strings_only)
         settings.append([n, given, exp, typ])
     options = []
-    if route in ("options", "options_explicit"):
+    if route in ("options", "options_explicit", "vcf_options"):
         onames = rng.sample(sorted(PARAMS), rng.randint(1, 4))
         if route == "options_explicit" and names and rng.random() < 0.8:
             onames = list(dict.fromkeys(onames + [names[0]]))  # overlap: explicit must win
@@ -139,6 +141,10 @@ def gen_plan(rng, tier, i, seed):
     empty_options = route == "options_explicit" and rng.random() < 0.15
     if empty_options:
         options = []  # the file has an `options:` key with nothing under it
+    if route == "vcf_options":
+        # (the shipped file has one sample: which sample is read is the business of route "vcf")
+        settings = [x for x in settings if x[0] != "vcf_sample_idx"]
+        options = [x for x in options if x[0] != "vcf_sample_idx"]
     extra = None
     r = rng.random()
     if r < 0.15:
@@ -189,7 +195,7 @@ def execute(plan, runner, rundir):
               "extra_pos": plan.get("extra_pos"), "vcf_cli": plan.get("vcf_cli"),
               "empty_options": plan.get("empty_options"), "with_cn": plan.get("with_cn")}
     res = {}
-    if plan["route"] in ("roundtrip", "dump", "options", "options_explicit", "profile_cli"):
+    if plan["route"] in ("roundtrip", "dump", "options", "options_explicit", "profile_cli", "vcf_options"):
         res["write"] = runner.segment(dict(common, kind="write", hashseed=plan["write_hashseed"]))
     res["read"] = runner.segment(dict(common, kind="read", hashseed=plan["read_hashseed"],
                                       written=res.get("write")))
@@ -494,7 +500,7 @@ def run_segment(seg):
                 doc = {}
             out["options_text"] = doc.get("options", {}) if isinstance(doc, dict) else {}
             out["wrote_profile"] = isinstance(doc, dict) and "neutral" in doc
-        elif route in ("options", "options_explicit"):
+        elif route in ("options", "options_explicit", "vcf_options"):
             _options_yaml(os.path.join(wd, man["profile_yml"]), os.path.join(rd, "opts.yml"), seg["options"],
                           unknown_first=(seg.get("extra_pos") == "first"), empty=seg.get("empty_options"))
         elif route == "dump":
@@ -555,6 +561,18 @@ def run_segment(seg):
         elif route == "roundtrip":
             p = Profile.load(gene, os.path.join(rd, "w", "written.yml"), None)
             res["observed"] = _profile_attrs(p)
+        elif route == "vcf_options":
+            from aldy.common import script_path
+
+            rec = O.run_genotype("slco1b1", script_path("aldy.tests.resources/NA07000_SLCO1B1.vcf.gz"),
+                                 os.path.join(rd, "opts.yml"), None, params=params)
+            rec.pop("_raw", None)
+            if rec["exc"] and not SIM.stage_calls:
+                if rec["exc"].get("aldy"):
+                    res["rejected"] = rec["exc"]
+                else:
+                    res["crash"] = rec["exc"]
+            observe_stage()
         elif route in ("options", "options_explicit"):
             rec = O.run_genotype(db, bam, os.path.join(rd, "opts.yml"), None, params=params,
                                  cn_solution=["1", "1"] if seg.get("with_cn") else None)
